@@ -29,7 +29,7 @@ pub static DEF: ScenDef = ScenDef {
 fn budget(_prop: &str, tier: Tier) -> u64 {
     match tier {
         Tier::Quick => 1_000,
-        Tier::Thorough => 60_000,
+        Tier::Thorough => 40_000,
     }
 }
 
